@@ -318,3 +318,12 @@ Theorem C01_inline_ascii_leaves_with_the_composition :
     RimeV.Eng.Ctx.cx_conn (RimeV.Eng.Engine.ac_on_update c) = false.
 Proof. exact RimeV.Eng.AsciiProofs.inline_leaves_ascii_mode. Qed.
 Print Assumptions C01_inline_ascii_leaves_with_the_composition.
+
+(** source facts (gen/eng_facts.py, re-read from src/rime/gear/ascii_composer.cc on every run): the constants the model of
+    AsciiComposer::ProcessKeyEvent writes as literals *)
+Theorem C01_ascii_composer_source_constants :
+  RimeV.Gen.EngFacts.ascii_facts_recognised = true /\ RimeV.Gen.EngFacts.ascii_toggle_window_ms = BinNat.N.of_nat 500 /\
+  RimeV.Gen.EngFacts.ascii_window_strict = true /\
+  RimeV.Gen.EngFacts.ascii_push_lo = BinInt.Z.of_nat 32 /\ RimeV.Gen.EngFacts.ascii_push_hi = BinInt.Z.of_nat 128.
+Proof. exact RimeV.Eng.AsciiProofs.ascii_source_constants. Qed.
+Print Assumptions C01_ascii_composer_source_constants.
